@@ -105,6 +105,12 @@ def main() -> int:
         "RefAndInlineSameMember": {"allOf": [{"$ref": "#/components/schemas/Base"}, dict(P(extra="boolean"), required=["extra", "id"])]},
         "ChainChild": {"allOf": [{"$ref": "#/components/schemas/RefThenRequired"}, dict(P(more="string"), required=["more"])]},
         "TwoRefs": {"allOf": [{"$ref": "#/components/schemas/Base"}, {"$ref": "#/components/schemas/RequiredAfter"}]},
+        # member properties whose Python names coincide (itemCount / item_count): both stay properties of the composition
+        "CollideBase": P(itemCount="number", item_count="number"),
+        "CollideNarrowed": {"allOf": [{"$ref": "#/components/schemas/CollideBase"}, P(itemCount="integer")]},
+        "CollideNarrowedOther": {"allOf": [P(item_count="integer", other="string"), {"$ref": "#/components/schemas/CollideBase"}]},
+        "CollideLeft": P(fooBar="string"), "CollideRight": P(foo_bar="string"),
+        "CollideTwoParents": {"allOf": [{"$ref": "#/components/schemas/CollideLeft"}, {"$ref": "#/components/schemas/CollideRight"}, P(FooBar="integer")]},
     }
     for order in (0, 1):
         for le in (False, True):
@@ -161,6 +167,8 @@ def main() -> int:
                     ev.count("composed_roundtrips")
                     if not x.get("action_exc"):
                         judge_roundtrip(vd, ev, a, x, {"doc": {"components": {"schemas": comps}}}, capture=capture)
+                    else:
+                        vd.violation(f"composed_model_unusable:{x['action_exc'].get('type')}", f"{a['cls']}: the generated composed model cannot be imported / found: {x['action_exc'].get('msg', '')[:160]}", {"doc": {"components": {"schemas": comps}}, "cls": a["cls"]})
             continue
         style = "literal" if le else "enum"
         obs = {}
